@@ -128,6 +128,10 @@ pub fn compare_cell<M: ConvexCellMarker + 'static>(c: &Case, cell: &ConvexCell<M
         }};
     }
     let four_pi = 4. * std::f64::consts::PI;
+    // analytic bound on what the snapping of a close neighbour can do to the presence of a small
+    // face (the measured variation samples such discrete events too sparsely)
+    let s_min = sites_rel(c, i, 1).iter().map(|x| x.2.length()).fold(f64::INFINITY, f64::min);
+    let presence_slack = if s_min.is_finite() { tol::snap_theta(c, s_min) * b.r3 * 2. * std::f64::consts::PI * b.r3 } else { 0. };
     // --- volume and centroid
     let vc: VolumeCentroidIntegral = cell.compute_cell_integral::<(), VolumeCentroidIntegral>(());
     let tolv = VAR_FACTOR * b.var_volume + eps * four_pi * b.r3 * b.r3 + 1e-11 * r.volume;
@@ -196,7 +200,7 @@ pub fn compare_cell<M: ConvexCellMarker + 'static>(c: &Case, cell: &ConvexCell<M
                 }
                 cs.count("faces_compared", 1);
                 if rf.area > thr && tola < 0.125 * rf.area && fv.centroid.is_finite() {
-                    let tolc = VAR_FACTOR * fv.centroid + 2. * rf.perimeter * tola / rf.area + eps;
+                    let tolc = VAR_FACTOR * fv.centroid + 8. * rf.perimeter * tola / rf.area + eps;
                     let dc = cen.distance(rf.centroid);
                     cs.max("face_centroid_diff_over_tol", dc / tolc);
                     if dc > tolc {
@@ -209,7 +213,7 @@ pub fn compare_cell<M: ConvexCellMarker + 'static>(c: &Case, cell: &ConvexCell<M
                 }
             }
             None => {
-                if rf.area > thr + tola {
+                if rf.area > thr + tola + presence_slack {
                     geometric_mismatch!("cell {i}: MISSING face {:?}: brute force area {:e} (threshold {:e}, tol {:e})", rf.tag, rf.area, thr, tola);
                 }
                 cs.count("negligible_ref_faces_absent_in_library", 1);
@@ -225,7 +229,7 @@ pub fn compare_cell<M: ConvexCellMarker + 'static>(c: &Case, cell: &ConvexCell<M
         if tol::lowdim_area_unreliable(c) {
             continue;
         }
-        if *a > thr + tola {
+        if *a > thr + tola + presence_slack {
             geometric_mismatch!("cell {i}: SPURIOUS face {:?} of area {:e} (threshold {:e}, tol {:e}), absent from the brute-force cell", key, a, thr, tola);
         }
         cs.count("negligible_library_faces_absent_in_ref", 1);
